@@ -23,7 +23,7 @@ template <class C> struct Runner {
         int rc = hist == 1 ? A::AddBaseUri(&w.d, &w.u, &w.b) : A::RemoveBaseUri(&w.d, &w.u, &w.b, hist == 3);
         if (rc != URI_SUCCESS) return 0; w.hd = true; return &w.d;
     }
-    static int apply(Uri *x, int op) { return op == 0 ? A::MakeOwner(x) : A::NormalizeSyntaxEx(x, (unsigned)op); }
+    static int apply(Uri *x, int op) { static const unsigned HIGH[3] = { 0x40u, 0xFFFFFFC0u, 0x80000001u }; return op == 0 ? A::MakeOwner(x) : A::NormalizeSyntaxEx(x, op >= 64 ? HIGH[op - 64] : (unsigned)op); }
     void one(const Str &text, int hist, int op) {
         lc->cases++; ctx->progress++; Str e = enc(text, hist, op); Str what; int sig;
         std::basic_string<C> wt = widen<C>(text), wb = widen<C>(BASE);
@@ -107,6 +107,8 @@ template <class C> struct Runner {
     }
     void run_text(const Str &t, int only_hist = -1, int only_op = -1) {
         SanWatch sw;
+        // "any non-zero mask": also masks that carry bits beyond the six defined ones (ops 64.. map to 0x40, 0xFFFFFFC0, 0x80000001)
+        if (only_hist < 0 || only_op >= 64) for (int op = 64; op < 67; op++) { if (only_op >= 0 && op != only_op) continue; one(t, 0, op); }
         for (int hist = 0; hist < 4; hist++) for (int op = 0; op < 64; op++) { if ((only_hist >= 0 && hist != only_hist) || (only_op >= 0 && op != only_op)) continue; if (hist > 0 && !(op == 0 || op == 63 || op == 8 || op == 4 || op == 1 || op == 2 || op == 48)) continue; one(t, hist, op); }
         if (only_hist < 0 || only_hist == 9) ro_calls(t);
         if (only_hist < 0 || only_hist == 8) owner_args(t);
